@@ -548,7 +548,7 @@ c.ens("operands-consumed", lambda self: list(self.argstack) == (self._stack0[: s
 
 
 @bounded("operator-programs-vs-ISO-text-model", props=["C05"],
-         bound="random programs of 6..16 operators over q Q cm BT ET Tc Tw Tz TL Tf Ts Td TD Tm T* Tj TJ ' \" with dyadic operands, two fonts with random width tables; each also split into 1..4 content streams at operator boundaries; quick 120 programs, thorough 3000")
+         bound="random programs of 6..16 operators over q Q cm BT ET Tc Tw Tz TL Tf Ts Td TD Tm T* Tj TJ ' \" with dyadic operands, two fonts with random width tables; each also split into 1..4 content streams at operator boundaries; quick 120 programs, thorough 20000")
 def _(tier, seed):
     import io, random
     from fractions import Fraction as F
@@ -556,7 +556,7 @@ def _(tier, seed):
     from specs import textmodel as TM
     from specs.pdfgen import build, Name, Ref, Stream, simple_font
     rng = random.Random(seed + 5)
-    n_prog = 120 if tier == "quick" else 3000
+    n_prog = 120 if tier == "quick" else 20000
     PDFParser = real_module("pdfminer.pdfparser").PDFParser
     PDFDocument = real_module("pdfminer.pdfdocument").PDFDocument
     PDFPage = real_module("pdfminer.pdfpage").PDFPage
